@@ -19,10 +19,14 @@
 (***************************************************************************)
 EXTENDS Integers, Sequences, FiniteSets, TLC, Json, IOUtils
 
-CONSTANTS MaxTop, Focus, Variant    \* Variant: "tags" | "filters" | "comments" | "mixed"
+CONSTANTS MaxTop, Focus, Variant    \* Variant: "tags" | "filters" | "comments" | "mixed" | "breaks"
+
+\* the line separator of the template text: every separator str.splitlines() knows starts a new line
+Seps == <<"\n", "\r\n", "\r", "\f">>
+VARIABLE sep
 
 VARIABLE prog
-vars == <<prog>>
+vars == <<prog, sep>>
 
 \* ---- items ---------------------------------------------------------------------------
 \* operand kinds: "none" | "lit" | "var" ; count: "none" | "0" | "1" | "2" | "var"
@@ -104,7 +108,7 @@ MsgLineOffset(it) ==
 RECURSIVE LinesOf(_)
 LinesOf(p) == IF p = <<>> THEN <<>> ELSE ItemLines(p[1]) \o LinesOf(Tail(p))
 RECURSIVE JoinNL(_)
-JoinNL(ls) == IF ls = <<>> THEN "" ELSE IF Len(ls) = 1 THEN ls[1] ELSE ls[1] \o "\n" \o JoinNL(Tail(ls))
+JoinNL(ls) == IF ls = <<>> THEN "" ELSE IF Len(ls) = 1 THEN ls[1] ELSE ls[1] \o Seps[sep] \o JoinNL(Tail(ls))
 Source(p) == JoinNL(LinesOf(p))
 RECURSIVE FirstLine(_, _)
 FirstLine(p, i) == IF i = 1 THEN 1 ELSE FirstLine(p, i - 1) + Len(ItemLines(p[i - 1]))
@@ -158,7 +162,7 @@ ItemOut(it, n) ==
          LET c == Calls(it, n)[Len(Calls(it, n))]
              base == IF it.site = "ternary-both-no" THEN "Bye"
                      ELSE IF c.plural # "" /\ c.n # 1 THEN c.plural ELSE c.id
-             nl == "\n" IN
+             nl == Seps[sep] IN
          (CASE it.site \in {"output", "echo", "assign", "ternary-left", "ternary-alt", "after-filter", "liquid", "ternary-both", "ternary-both-no",
                             "if-assign", "for-assign", "liquid-assign"} -> base
             [] it.site = "then-filter" -> Upper(base)
@@ -168,7 +172,7 @@ ItemOut(it, n) ==
     [] it.k = "filler" -> IF it.site = "text" THEN "plain text" ELSE ""
     [] OTHER -> ""
 RECURSIVE OutOf(_, _)
-OutOf(p, n) == IF p = <<>> THEN "" ELSE IF Len(p) = 1 THEN ItemOut(p[1], n) ELSE ItemOut(p[1], n) \o "\n" \o OutOf(Tail(p), n)
+OutOf(p, n) == IF p = <<>> THEN "" ELSE IF Len(p) = 1 THEN ItemOut(p[1], n) ELSE ItemOut(p[1], n) \o Seps[sep] \o OutOf(Tail(p), n)
 
 \* ---- what extraction reports ---------------------------------------------------------------------
 \* a filter is a message only when it is applied directly to a string literal and every identifier
@@ -267,10 +271,14 @@ PoolAt(i) ==
                                                \cup {f \in FilterPool : f.site \in {"output", "ternary-alt", "liquid"} /\ f.count \in {"none", "var"} /\ f.f \in {"t", "ngettext"}}
                                                \cup {Comment("hash", "Translators: be kind"), Filler("text")}
                                 ELSE {})
+    [] Variant = "breaks"   -> (CASE i = 1 -> {Comment("hash", "Translators: be kind"), Filler("text"), Filler("blank")}
+                                  [] i = 2 -> {Filler("text"), Tag("none", "none", "none", "Hello, World!"), Flt("t", "lit", "none", "none", "none", "output")}
+                                  [] i = 3 -> {Tag("lit", "lit", "var", "Hello, World!"), Flt("gettext", "lit", "none", "none", "none", "echo"), Flt("t", "lit", "none", "none", "none", "if-body")}
+                                  [] OTHER -> {})
     [] OTHER -> {}
 
-Init == prog = <<>>
-Next == Len(prog) < MaxTop /\ \E it \in PoolAt(Len(prog) + 1) : prog' = Append(prog, it)
+Init == prog = <<>> /\ sep \in (IF Variant = "breaks" THEN DOMAIN Seps ELSE {1})
+Next == Len(prog) < MaxTop /\ \E it \in PoolAt(Len(prog) + 1) : prog' = Append(prog, it) /\ UNCHANGED sep
 
 Opt == [format |-> "TXT", charset |-> "UTF-8", openOptions |-> <<"WRITE", "CREATE", "APPEND">>]
 Export ==
